@@ -1386,6 +1386,8 @@ func main() {
 		streamCorpus()
 	case "replay":
 		replay()
+	case "index":
+		streamIndex()
 	case "e2x":
 		streamE2(int(seed), n)
 	case "small":
